@@ -139,7 +139,7 @@ def gen_registry(rng, cid, k, eth_sc, ip_sc):
 def gen_cold_suite(rng, cid0, tier):
     """Every workload kind alone at every k, every group mixed at every k, every registry scenario at every k."""
     ops, cid, plan = [], cid0, {"homogeneous": 0, "groups": 0, "registry": 0}
-    rounds = 1 if tier == "quick" else 6
+    rounds = 3 if tier == "quick" else 12
     for _ in range(rounds):
         for kind in KINDS:
             for k in THREAD_COUNTS:
@@ -305,7 +305,7 @@ def run(chk):
         return
     rng = random.Random(chk.seed)
     sig_of = make_sig_of(exe)
-    per_k = 12 if chk.tier == "quick" else 300
+    per_k = 20 if chk.tier == "quick" else 300
     scale = 1 if chk.tier == "quick" else 2
     total = corr.collections.Counter()
     dropped = {}
